@@ -576,3 +576,71 @@ func Generate(seed uint64, opt GenOptions) *Scenario {
 	sc.Note = fmt.Sprintf("wild=%v gen=%s faultRate=%.2f style=%s", wildOK, generatedShare, faultRate, style)
 	return sc
 }
+
+// TwinCount is the number of curated (path, home document) pairs.
+func TwinCount() int { return len(twinPairs()) }
+
+func twinPairs() [][2]int {
+	var out [][2]int
+	for pi, p := range poolPaths {
+		for di, d := range poolDocs {
+			if poolPathInfo[pi].wild && !poolDocSafe[di] {
+				continue
+			}
+			if groupIn(d.Group, p.Groups) {
+				out = append(out, [2]int{pi, di})
+			}
+		}
+	}
+	return out
+}
+
+// TwinScenario is the directed family for the race oracle: three tasks run
+// staggered call lists over the SAME Path, document and variables in
+// lock-step windows, so that every node of every curated path is evaluated
+// by two tasks with no happens-before edge between them, and String, Parse
+// and the executor overlap pairwise.
+func TwinScenario(idx int, mode string) *Scenario {
+	pairs := twinPairs()
+	pr := pairs[idx%len(pairs)]
+	variant := idx / len(pairs)
+	p, d := poolPaths[pr[0]], poolDocs[pr[1]]
+	sc := &Scenario{Version: 1, Property: "C19", Seed: uint64(idx), Mode: mode, Start: "2021-03-10T09:30:00Z",
+		Paths: []string{p.Text}, Docs: []DocSpec{{JSON: d.JSON, Number: variant%2 == 1}},
+		Vars: []DocSpec{{JSON: poolVars[0]}}, Note: "twin family"}
+	zone := []string{"America/New_York", "UTC", "+05:30", ""}[(idx+variant)%4]
+	mk := func(kind string) OpSpec {
+		o := OpSpec{Kind: kind, Path: 0, Doc: 0, Vars: 0}
+		if o.IsExec() {
+			o.TZ = true
+			o.Zone = zone
+			o.Silent = (idx+variant)%3 == 0
+		}
+		return o
+	}
+	lists := [][]string{
+		{"query", "exists", "string", "parse", "first", "marshal"},
+		{"string", "query", "parse", "match", "query", "parsequery"},
+		{"exists", "parse", "query", "ispredicate", "existsormatch", "string"},
+	}
+	for _, l := range lists {
+		var ts TaskSpec
+		for _, k := range l {
+			ts.Ops = append(ts.Ops, mk(k))
+		}
+		sc.Tasks = append(sc.Tasks, ts)
+	}
+	n := 3
+	if mode == "interleave" {
+		// Round-robin one step at a time: maximal interleaving of the
+		// same path's executions.
+		for w := 0; w < 600; w++ {
+			sc.Schedule = append(sc.Schedule, Window{Tasks: []int{w % n}})
+		}
+		return sc
+	}
+	for w := 0; w < 400; w++ {
+		sc.Schedule = append(sc.Schedule, Window{Tasks: []int{0, 1, 2}})
+	}
+	return sc
+}
